@@ -188,7 +188,7 @@ def build_tensor(t, depth, shapes=None, d=0, rank_ids=None, name=None):
     if shapes is not None:
         kw["shape"] = list(shapes)
     T = Tensor.fromFiber(rank_ids=rank_ids, fiber=root, **kw)
-    if MODE["touch"] and MODE["vkind"] == "float":
+    if MODE["touch"] and MODE["vkind"] == "float" and isinstance(d, int):
         # the leaf default is replaced once after having been read: nothing of the first one may survive
         T.setDefault(float(d) + 0.5)
         for q in (lambda: T.getDefault(), lambda: T.ranks[-1].getDefault(), lambda: T.ranks[-1].getAttrs().getDefault()):
@@ -197,7 +197,7 @@ def build_tensor(t, depth, shapes=None, d=0, rank_ids=None, name=None):
             except Exception:
                 pass
         T.setDefault(float(d))
-    elif d != 0:
+    elif d is None or d != 0:
         T.setDefault(dress(d))
     if name is not None:
         T.setName(name)
